@@ -231,6 +231,40 @@ fn scenario_scripts(kind: usize, g: &mut Gen, snap: &Value, conns: &[String]) ->
                 }
             }
         }
+        // rank and membership of the issuer change while his TOPIC / INVITE / KICK are on their way, everybody
+        // queueing behind an operator login that holds the state lock
+        16 => {
+            if authed.len() >= 3 {
+                let nick_of = |c: &String| snap["conns"][c.as_str()]["nick"][0].as_str().unwrap_or("x").to_string();
+                let b = authed[1].clone();
+                let bn = nick_of(&b);
+                let extra = if authed.len() > 3 { nick_of(&authed[3]) } else { s("nobody") };
+                m.insert(authed[0].clone(), match g.rng.gen_range(0..3) {
+                    0 => vec![cmd("KICK", vec![vec![s("#one")], vec![bn.clone()]]), cmd("MODE", vec![vec![s("#one")], vec![s("+t")]])],
+                    1 => vec![cmd("MODE", vec![vec![s("#one")], vec![s("+t")]]), cmd("MODE", vec![vec![s("#one")], vec![s("+i")]]), cmd("MODE", vec![vec![s("#one")], vec![s("-ti")]])],
+                    _ => vec![cmd("MODE", vec![vec![s("#one")], vec![s("+o"), bn.clone()]]), cmd("MODE", vec![vec![s("#one")], vec![s("-o"), bn.clone()]]), cmd("KICK", vec![vec![s("#one")], vec![bn.clone()]])],
+                });
+                m.insert(b.clone(), vec![cmd("TOPIC", vec![vec![s("#one")], vec![format!("{} was here", bn)]]), cmd("INVITE", vec![vec![extra.clone()], vec![s("#one")]]),
+                                         cmd("KICK", vec![vec![s("#one")], vec![nick_of(&authed[2])]]), cmd("TOPIC", vec![vec![s("#one")]])]);
+                m.insert(authed[2].clone(), vec![cmd("OPER", vec![vec![s("god")], vec![s("wrongpass")]]), cmd("TOPIC", vec![vec![s("#one")], vec![s("another topic")]]), cmd("NAMES", vec![vec![s("#one")]])]);
+                for c in authed.iter().skip(3) {
+                    m.insert(c.clone(), vec![cmd("PART", vec![vec![s("#one")]]), cmd("JOIN", vec![vec![s("#one")]]), cmd("TOPIC", vec![vec![s("#one")]])]);
+                }
+            }
+        }
+        // one command with dozens of echoes to its issuer, the next commands already in the pipe
+        17 => {
+            let many: Vec<String> = (0..40).map(|k| format!("#b{}", k)).collect();
+            for (i, c) in authed.iter().enumerate() {
+                let sc = if i % 2 == 0 {
+                    vec![cmd("JOIN", vec![many.clone()]), cmd("PART", vec![many.clone()]), cmd("PING", vec![vec![format!("after-{}", c)]]), cmd("LUSERS", vec![])]
+                } else {
+                    vec![cmd("JOIN", vec![many[..12].to_vec()]), cmd("PRIVMSG", vec![vec![s("#b3")], vec![format!("{} here", c)]]), cmd("PART", vec![many[..12].to_vec(), vec![s("bye")]]),
+                         cmd("PING", vec![vec![s("x")]])]
+                };
+                m.insert(c.clone(), sc);
+            }
+        }
         // random scripts
         _ => {
             for c in conns {
@@ -323,7 +357,7 @@ async fn run_rounds(id: &str, cfg: &Value, seed: u64, rounds: usize, nconn: usiz
             }
         }
         snap = sess.snapshot().await;
-        let kind = if kinds.is_empty() { (seed as usize + r) % 16 } else { kinds[(seed as usize + r) % kinds.len()] };
+        let kind = if kinds.is_empty() { (seed as usize + r) % 18 } else { kinds[(seed as usize + r) % kinds.len()] };
         if kind == 8 || kind == 9 {
             // make room for fresh registrations: three connections start over
             for c in conns.iter().skip(2) {
@@ -396,7 +430,10 @@ async fn run_rounds(id: &str, cfg: &Value, seed: u64, rounds: usize, nconn: usiz
         // per receiver: the direct stream (non-relay lines) and, per sending connection, the relays
         let mut direct: Map<String, Value> = Map::new();
         let mut relay: Map<String, Value> = Map::new();
+        // per socket, in arrival order: everything except what other connections' commands relayed to it
+        let mut own: Map<String, Value> = Map::new();
         for c in &conns {
+            own.insert(c.clone(), json!([]));
             direct.insert(c.clone(), json!([]));
             let mut per = Map::new();
             for s2 in &conns {
@@ -409,13 +446,23 @@ async fn run_rounds(id: &str, cfg: &Value, seed: u64, rounds: usize, nconn: usiz
             if m["k"] == "r" {
                 let src = m["src"].as_str().unwrap_or("");
                 let host = src.rsplit('@').next().unwrap_or("").to_string();
+                if host == to {
+                    if let Some(arr) = own.get_mut(&to).and_then(|x| x.as_array_mut()) {
+                        arr.push(m.clone());
+                    }
+                }
                 if let Some(arr) = relay.get_mut(&to).and_then(|x| x.get_mut(&host)).and_then(|x| x.as_array_mut()) {
                     arr.push(m.clone());
                 } else {
                     issue.push(format!("relay from unknown source {}", src));
                 }
-            } else if let Some(arr) = direct.get_mut(&to).and_then(|x| x.as_array_mut()) {
-                arr.push(m.clone());
+            } else {
+                if let Some(arr) = own.get_mut(&to).and_then(|x| x.as_array_mut()) {
+                    arr.push(m.clone());
+                }
+                if let Some(arr) = direct.get_mut(&to).and_then(|x| x.as_array_mut()) {
+                    arr.push(m.clone());
+                }
             }
         }
         let scr: Map<String, Value> = conns
@@ -424,7 +471,7 @@ async fn run_rounds(id: &str, cfg: &Value, seed: u64, rounds: usize, nconn: usiz
             .collect();
         let panics = take_panics();
         out.push(json!({"round": r + 1, "b": id, "kind": kind, "cfg": cfgn, "conns": conns, "pre": snap, "scripts": scr,
-                        "direct": direct, "relay": relay, "post": post, "issue": issue, "panics": panics,
+                        "direct": direct, "relay": relay, "own": own, "post": post, "issue": issue, "panics": panics,
                         "race_hits": verif::RACE_HITS.load(Ordering::SeqCst)}));
         // liveness: every live connection still answers
         let live: Vec<String> = sess.clients.keys().cloned().collect();
